@@ -409,6 +409,50 @@ def flat_of(term: P) -> P:
     return term
 
 
+# properties that return a tuple of fixed length (SHT.grid_cartesian is spherical_to_cartesian_mgrid's (x, y, z); SHT.grid is (theta, phi))
+FIXED_TUPLES = {"sht.grid_cartesian": 3, "self.grid_cartesian": 3, "sht.grid": 2, "self.grid": 2}
+
+
+def comp_items(seq: P):
+    """[f(c) for c in T] over a fixed-length tuple property T  ->  [f(T[0]), f(T[1]), ...]; None otherwise."""
+    a = seq.as_atom()
+    if not (a and a[0] == "comp" and a[1] in ("ListComp", "GeneratorExp") and len(a) == 4 and len(a[3]) == 1):
+        return None
+    kind, it, conds = a[3][0]
+    n = FIXED_TUPLES.get(it.key())
+    if kind != "iter" or conds or n is None:
+        return None
+    idx = {x for x in _walk_atoms(a[2]) if x[0] == "lv" and x[1] == "_it"}
+    if len(idx) != 1:
+        return None
+    from ..symex import Ev
+    out = []
+    for k in range(n):
+        out.append(a[2].subs({next(iter(idx)): P.const(k)}))
+    return out
+
+
+def _walk_atoms(term: P):
+    seen = []
+
+    def rec(x):
+        if isinstance(x, P):
+            for at in x.atoms():
+                seen.append(at)
+                rec(at)
+        elif isinstance(x, tuple):
+            for y in x:
+                rec(y)
+    rec(term)
+    return seen
+
+
+def _cols(seq: P):
+    from ..symex import seq_items
+    it = seq_items(seq)
+    return it if it is not None else comp_items(seq)
+
+
 def stack_columns(term: P):
     """The column terms of an (N, k) array written as np.c_[a, b, c] / np.column_stack((a, b, c)) / np.stack((a, b, c), axis=1 or -1) /
     np.array([a, b, c]).T / np.vstack((a, b, c)).T, through dtype conversions; None if the term is not such a construction."""
@@ -426,13 +470,13 @@ def stack_columns(term: P):
         cn = call_name(a)
         kw = dict(a[3]) if len(a) > 3 and a[3] else {}
         if cn == "numpy.column_stack" and len(a[2]) == 1:
-            return seq_items(a[2][0])
+            return _cols(a[2][0])
         if cn == "numpy.stack" and len(a[2]) >= 1 and (kw.get("axis") or (a[2][1] if len(a[2]) > 1 else P.const(0))).key() in ("1", "-1"):
-            return seq_items(a[2][0])
+            return _cols(a[2][0])
     if a[0] == "T":
         inner = a[1].as_atom()
         if inner and inner[0] == "call" and call_name(inner) in ("numpy.array", "numpy.vstack", "numpy.stack") and inner[2]:
-            return seq_items(inner[2][0])
+            return _cols(inner[2][0])
     return None
 
 
